@@ -1,20 +1,25 @@
 #!/bin/bash
 # confirm a seeded change delivered by a sub-agent in /tmp/seed/<ID>/_seed and store it under /verif/seeded/<ID><suffix>/
-# usage: confirm_seed.sh ID [suffix]
-ID=$1; SUF=$2; WT=/tmp/seed/$ID; OUT=/verif/seeded/$ID$SUF
+# usage: confirm_seed.sh ID [suffix] [patchfile] [base-commit]
+#   patchfile: patch to confirm (default _seed/patch.diff); base-commit: commit of /repo the patch applies to (default: worktree HEAD)
+ID=$1; SUF=${2:-}; WT=/tmp/seed/$ID; OUT=/verif/seeded/$ID$SUF
+PATCH=${3:-$WT/_seed/patch.diff}; BASE=${4:-}
 set -u
 cd $WT || exit 2
 mkdir -p $OUT
 DEMO=$(ls _seed/demo*.py | head -1)
-cp _seed/patch.diff $OUT/patch.diff; cp $DEMO $OUT/; cp _seed/meta.json $OUT/meta.agent.json
-# clean tree, then apply patch freshly
-git stash -u -q 2>/dev/null; git checkout -q -- . ; 
+cp $PATCH $OUT/patch.diff; cp $DEMO $OUT/; cp _seed/meta.json $OUT/meta.agent.json
+cp -r _seed /tmp/seed/$ID.seedcopy
+git stash -u -q 2>/dev/null; git checkout -q -- . ; git clean -fdq
+[ -n "$BASE" ] && git checkout -q --detach $BASE
+git rev-parse HEAD > $OUT/base_commit.txt
 mkdir -p _seed; cp $OUT/$(basename $DEMO) _seed/
-( /venv/bin/python $DEMO > $OUT/demo_without.log 2>&1; echo "exit=$?" >> $OUT/demo_without.log )
+( timeout 900 /venv/bin/python $DEMO > $OUT/demo_without.log 2>&1; echo "exit=$?" >> $OUT/demo_without.log )
 git apply $OUT/patch.diff || { echo "patch does not apply" > $OUT/confirm.txt; exit 1; }
-( /venv/bin/python $DEMO > $OUT/demo_with.log 2>&1; echo "exit=$?" >> $OUT/demo_with.log )
+( timeout 900 /venv/bin/python $DEMO > $OUT/demo_with.log 2>&1; echo "exit=$?" >> $OUT/demo_with.log )
 /venv/bin/python -m pytest -q -p no:cacheprovider --timeout=900 hypnotoad > $OUT/pytest_with.log 2>&1
 tail -1 $OUT/pytest_with.log > $OUT/confirm.txt
 tail -1 $OUT/demo_without.log >> $OUT/confirm.txt
 tail -1 $OUT/demo_with.log >> $OUT/confirm.txt
+rm -rf /tmp/seed/$ID.seedcopy
 cat $OUT/confirm.txt
